@@ -15,6 +15,8 @@ func init() {
 		ruleDef{"C03.R4", c03r4},
 		ruleDef{"C03.R5", c03r5},
 		ruleDef{"C03.R6", c03r6},
+		ruleDef{"C03.R7", func(r *R) { injectedValueProvenance(r, "C03.R7") }},
+		ruleDef{"C05.R1", c05r1}, ruleDef{"C05.R4", c05r4},
 	)
 }
 
